@@ -3,7 +3,9 @@ package main
 // pair.go: PAIR / ATOMIC-SECTION helpers — ordering facts inside one function.
 
 import (
+	"fmt"
 	"go/token"
+	"os"
 
 	"golang.org/x/tools/go/ssa"
 )
@@ -362,4 +364,69 @@ func dependsOnFS(v ssa.Value, pred func(ssa.Value) bool) bool {
 		return false
 	}
 	return rec(v, 0)
+}
+
+// controlDependsOnClassic: classical (Ferrante–Ottenstein–Warren) control dependence, transitively: the block of `in`
+// post-dominates one successor of a branch whose condition satisfies condPred and not the other — whether or not the
+// branch dominates the block (the second operand of `a && b` guarding an else branch does not) — or it is so
+// dependent on a block that is.  Only the exits accepted by countsAsExit count (nil: all): with the refusals left
+// out, code after `if c { return err }` does not depend on c.
+func controlDependsOnClassic(fn *ssa.Function, in ssa.Instruction, condPred func(ssa.Value) bool, countsAsExit func(ssa.Instruction) bool) bool {
+	exitAvoiding := func(start, avoid *ssa.BasicBlock) bool {
+		if start == avoid {
+			return false
+		}
+		seen := map[*ssa.BasicBlock]bool{avoid: true}
+		stack := []*ssa.BasicBlock{start}
+		for len(stack) > 0 {
+			b := stack[len(stack)-1]
+			stack = stack[:len(stack)-1]
+			if seen[b] {
+				continue
+			}
+			seen[b] = true
+			if len(b.Instrs) > 0 {
+				if last := b.Instrs[len(b.Instrs)-1]; isExit(last) && (countsAsExit == nil || countsAsExit(last)) {
+					return true
+				}
+			}
+			stack = append(stack, b.Succs...)
+		}
+		return false
+	}
+	seen := map[*ssa.BasicBlock]bool{}
+	var dep func(target *ssa.BasicBlock) bool
+	dep = func(target *ssa.BasicBlock) bool {
+		if seen[target] {
+			return false
+		}
+		seen[target] = true
+		for _, b := range fn.Blocks {
+			if len(b.Instrs) == 0 || b == target {
+				continue
+			}
+			ifi, ok := b.Instrs[len(b.Instrs)-1].(*ssa.If)
+			if !ok {
+				continue
+			}
+			pd := func(s *ssa.BasicBlock) bool { return s == target || !exitAvoiding(s, target) }
+			r0 := b.Succs[0] == target || blockReaches(b.Succs[0], target, nil)
+			r1 := b.Succs[1] == target || blockReaches(b.Succs[1], target, nil)
+			if (!r0 && !r1) || pd(b.Succs[0]) == pd(b.Succs[1]) {
+				continue
+			}
+			// a successor from which only exits that do not count are reachable (a refusal) decides nothing
+			if (!r0 && !exitAvoiding(b.Succs[0], target)) || (!r1 && !exitAvoiding(b.Succs[1], target)) {
+				continue
+			}
+			if dependsOn(ifi.Cond, condPred) || dep(b) {
+				if os.Getenv("RULINT_DEBUG_CD") != "" {
+					fmt.Fprintf(os.Stderr, "CD: block %d depends on branch in block %d (%s)\n", target.Index, b.Index, fn.Prog.Fset.Position(ifi.Cond.Pos()))
+				}
+				return true
+			}
+		}
+		return false
+	}
+	return dep(in.Block())
 }
